@@ -94,7 +94,7 @@ void runCase(Ctx &c) {
     const data_t e1 = std::fabs(sol(pts.front()) - start) / scale;
     const data_t e2 = std::fabs(sol(pts.back()) - end) / scale;
     c.maxval("diffusion:boundary-error", (double)std::max(e1, e2));
-    if (!(e1 <= 1e-10) || !(e2 <= 1e-10))
+    if (!(e1 <= 1e-9) || !(e2 <= 1e-9))
       c.violation("C20", "diffusion/boundary-values",
                   desc + ": c(front)=" + std::to_string((double)sol(pts.front())) +
                       " c(back)=" + std::to_string((double)sol(pts.back())));
@@ -111,7 +111,7 @@ void runCase(Ctx &c) {
       data_t worst = 0;
       for (data_t x : xs) worst = std::max(worst, std::fabs(sol2(x) - sol(x)) / scale);
       c.maxval("diffusion:scaling-deviation", (double)worst);
-      if (!(worst <= 1e-9))
+      if (!(worst <= 1e-6))
         c.violation("C20", "diffusion/scaling-invariance",
                     desc + ": scaling D by " + std::to_string((double)f) +
                         " changes c by " + std::to_string((double)worst) + " * scale");
@@ -124,7 +124,7 @@ void runCase(Ctx &c) {
         worst = std::max(worst, std::fabs(sol(x) - line) / scale);
       }
       c.maxval("diffusion:straight-line-deviation", (double)worst);
-      if (!(worst <= 1e-10))
+      if (!(worst <= 1e-9))
         c.violation("C20", "diffusion/straight-line",
                     desc + ": deviation from the straight line " +
                         std::to_string((double)worst) + " * scale");
@@ -207,7 +207,7 @@ void runCase(Ctx &c) {
         c.violation("C20", "potential/eigenvalues-not-ascending", desc);
     }
     c.maxval("potential:shift-deviation", (double)worst);
-    if (!(worst <= 1e-10))
+    if (!(worst <= 1e-9))
       c.violation("C20", "potential/eigenvalue-shift",
                   desc + ": eigenvalues of v+c deviate from eigenvalues of v plus c by " +
                       std::to_string((double)worst) + " (relative)");
